@@ -62,6 +62,12 @@ func checkWrite(t hx.TB, test, src string, m *ir.Module, want string, k int, rec
 	if p := lx.Guard(func() { n, err = m.WriteTo(w) }); p != nil {
 		hx.Fail(t, test, "ll", c, "WriteTo panics with a writer failing at offset %d: %s", k, p)
 	}
+	judge(t, test, c, w, n, err, want, k)
+}
+
+// judge applies the contract to what one WriteTo call returned and delivered to w.
+func judge(t hx.TB, test, c string, w *faultWriter, n int64, err error, want string, k int) {
+	errFault := w.err
 	if k < 0 || k >= len(want) {
 		// healthy (or the limit is never crossed)
 		if err != nil {
